@@ -6,6 +6,7 @@ import (
 	"crypto/sha256"
 	"encoding/hex"
 	"fmt"
+	"image"
 	"image/color"
 
 	"github.com/boombuler/barcode"
@@ -138,7 +139,17 @@ func Project(bc barcode.Barcode, r Ref, mode string) (res map[string]interface{}
 			row = make([]int, b.Dx())
 		}
 		for x := b.Min.X; x < b.Max.X; x++ {
-			c := Classify(bc.At(x, y), r)
+			at := bc.At(x, y)
+			c := Classify(at, r)
+			// an image may offer a second, faster view of its pixels (image.RGBA64Image, used by image/draw): both views must show the
+			// same picture - a pixel on which they disagree is reported as a colour of its own (class 98), which no reader accepts
+			if r64, ok := bc.(image.RGBA64Image); ok && at != nil {
+				ar, ag, ab, aa := at.RGBA()
+				v := r64.RGBA64At(x, y)
+				if uint32(v.R) != ar || uint32(v.G) != ag || uint32(v.B) != ab || uint32(v.A) != aa {
+					c = 98
+				}
+			}
 			rowbuf[x-b.Min.X] = byte(c)
 			if mode == "full" {
 				row[x-b.Min.X] = c
